@@ -80,6 +80,45 @@ int main(int argc, char** argv){
         return 0;
     }
 
+    if(mode == "deep"){
+        // record: level nl limbBits | c[Dim][nl] | parent[Dim][nl] | cc | nNb { c[Dim][nl] code } | nIL { c[Dim][nl] code }     (height argument = level + 1)
+        vh::Report rep; std::string line; vh::Rec r;
+        while(std::getline(std::cin, line)){
+            if(!r.parse(line)) continue;
+            const long level = r.get(), nl = r.get(), lb = r.get();
+            const long topBits = level - (nl - 1) * lb;
+            auto readCoord = [&](){ std::array<long,Dim> c; for(long d = 0; d < Dim; ++d){ long v = 0; for(long i = 0; i < nl; ++i){ const long limb = r.get(); v = (i == 0) ? limb : (v << lb) + limb; } c[d] = v; } (void)topBits; return c; };
+            auto own = [&](const std::array<long,Dim>& c, long l){ long m = 0; for(long b = 0; b < l; ++b) for(long d = 0; d < Dim; ++d) m |= ((c[d] >> b) & 1L) << (b * Dim + (Dim - 1 - d)); return m; };
+            const auto c = readCoord(); const auto parent = readCoord(); const long cc = r.get();
+            std::ostringstream ks; ks << kOrder << (Per ? "-per" : "") << "-d" << Dim << "-deep-l" << level << "-c" << vh::listStr(c); const std::string k = ks.str();
+            rep.scenarios++;
+            const long idx = own(c, level);
+            rep.eq("Bijection", k, (long)space.getIndexFromBoxPos(c), idx, "getIndexFromBoxPos (deep)");
+            rep.eq("Bijection", k, vh::listStr(space.getBoxPosFromIndex(idx)), vh::listStr(c), "getBoxPosFromIndex (deep)");
+            // the parent coordinate arrives in the limb layout of the child level: it is the child's coordinate halved
+            rep.eq("ParentContains", k, (long)space.getParentIndex(idx), own(parent, level - 1), "getParentIndex (deep)");
+            rep.eq("ChildCode", k, (long)space.childPositionFromParent(idx), cc, "childPositionFromParent (deep)");
+            std::vector<long> expNb, expNbPairs, expIl, expIlPairs;
+            const long nNb = r.get(); for(long i = 0; i < nNb; ++i){ const auto nc = readCoord(); const long code = r.get(); expNb.push_back(own(nc, level)); expNbPairs.push_back(own(nc, level)); expNbPairs.push_back(code); }
+            const long nIl = r.get(); for(long i = 0; i < nIl; ++i){ const auto nc = readCoord(); const long code = r.get(); expIl.push_back(own(nc, level)); expIlPairs.push_back(own(nc, level)); expIlPairs.push_back(code); }
+            { auto l1 = space.getNeighborListForIndex(idx, level); std::vector<long> obs(l1.begin(), l1.end()); std::sort(obs.begin(), obs.end()); std::sort(expNb.begin(), expNb.end());
+              rep.eq("NeighbourListDef", k, vh::listStr(obs), vh::listStr(expNb), "getNeighborListForIndex (deep)"); }
+            { auto l2 = space.getInteractionListForIndex(idx, level); std::vector<long> obs(l2.begin(), l2.end()); std::sort(obs.begin(), obs.end()); std::sort(expIl.begin(), expIl.end());
+              rep.eq("InteractionListDef", k, vh::listStr(obs), vh::listStr(expIl), "getInteractionListForIndex (deep)"); }
+            { FakeGroup g; g.idx = {idx};
+              auto res = space.getInteractionListForBlock(g, level, false); std::vector<std::pair<long,long>> obs, exp;
+              for(auto& it : res.first) obs.push_back({(long)it.indexSrc, (long)it.arrayIndexSrc}); for(auto& it : res.second) obs.push_back({(long)it.indexSrc, (long)it.arrayIndexSrc});
+              for(size_t i = 0; i + 1 < expIlPairs.size(); i += 2) exp.push_back({expIlPairs[i], expIlPairs[i+1]});
+              std::sort(obs.begin(), obs.end()); std::sort(exp.begin(), exp.end());
+              rep.ok("InteractionListDef", k, obs == exp, "getInteractionListForBlock sources/codes (deep): observed " + std::to_string(obs.size()) + " expected " + std::to_string(exp.size()));
+              auto rn = space.getNeighborListForBlock(g, level, false, false); std::vector<std::pair<long,long>> on, en;
+              for(auto& it : rn.first) on.push_back({(long)it.indexSrc, (long)it.arrayIndexSrc}); for(auto& it : rn.second) on.push_back({(long)it.indexSrc, (long)it.arrayIndexSrc});
+              for(size_t i = 0; i + 1 < expNbPairs.size(); i += 2) en.push_back({expNbPairs[i], expNbPairs[i+1]});
+              std::sort(on.begin(), on.end()); std::sort(en.begin(), en.end());
+              rep.ok("NeighbourListDef", k, on == en, "getNeighborListForBlock sources/codes (deep): observed " + std::to_string(on.size()) + " expected " + std::to_string(en.size())); }
+        }
+        return rep.finish("conf_grid_deep");
+    }
     vh::Report rep;
     std::map<std::pair<long,long>, CellExp> cells;
     {
